@@ -136,6 +136,7 @@ func (pr *Reader) Read(buf []byte) (cnt int, err error) {
 		}
 		return cnt, nil
 	}
+	pr.bufBits = 0 // Drop look-ahead bits from a wide load; the stream moves past them
 	if _, err := pr.Flush(); err != nil {
 		return 0, err
 	}
